@@ -150,7 +150,7 @@ def stage_spec(dst, area):
                 shutil.copy(f, dst)
 
 
-def run_tlc(cwd, module, cfg, workers=None, timeout=600, extra=(), heap=None, deque=False, coverage=False):
+def run_tlc(cwd, module, cfg, workers=None, timeout=600, extra=(), heap=None, deque=False, coverage=False, nodeadlock=True):
     """Runs TLC in cwd (a scratch dir holding the staged spec)."""
     workers = workers or NCPU
     env = dict(os.environ)
@@ -165,6 +165,8 @@ def run_tlc(cwd, module, cfg, workers=None, timeout=600, extra=(), heap=None, de
     cmd = ['timeout', str(timeout), 'tlc', '-workers', str(workers), '-metadir', md, '-config', cfg]
     if coverage:
         cmd += ['-coverage', '1']
+    if nodeadlock:
+        cmd += ['-deadlock']
     cmd += list(extra) + [module]
     t0 = time.time()
     p = subprocess.run(cmd, cwd=cwd, env=env, stdout=subprocess.PIPE, stderr=subprocess.STDOUT, text=True)
